@@ -252,7 +252,29 @@ def rule_state(ctx):
   wrap = [e for e in w.events if e.kind == "assign" and isinstance(e.data["value"], Seq) and len(e.data["value"].items) == 1 and isinstance(e.data["value"].items[0], Seq)
           and len(e.data["value"].items[0].items) == 2 and isinstance(e.data["value"].items[0].items[1], Poly) and any(e.data["value"].items[0].items[1] == t_ for t_ in tcall)]
   okw = bool(wrap) and all(len(e.data["value"].items) == 1 and isinstance(e.data["value"].items[0], Seq) and len(e.data["value"].items[0].items) == 2 for e in wrap) and \
-      all(any("isinstance" in repr(c) and "float" in repr(c) for c, pol, node in e.state.pc if pol) for e in wrap)
+      all(any("isinstance" in repr(c) and "float" in repr(c) for c, pol, node in e.state.pc) for e in wrap)
+  # the test under which the number is wrapped holds for a float alone and for an int alone (evaluated on the condition tree: `a or b`, `isinstance(x, (float, int))`,
+  # nested tests; `a and b` holds for neither)
+  def holds(c, typ):
+    if c[0] == "const":
+      return bool(c[1])
+    if c[0] == "not":
+      return not holds(c[1], typ)
+    if c[0] in ("and", "or"):
+      vs = [holds(x, typ) for x in c[1]]
+      return all(vs) if c[0] == "and" else any(vs)
+    if c[0] in ("truthy", "falsy") and isinstance(c[1], Poly) and c[1].as_atom() is not None and c[1].as_atom().kind == "isinstance":
+      v = ("glob('%s')" % typ) in repr(c[1].as_atom().args[1])
+      return v if c[0] == "truthy" else not v
+    raise ValueError("condition")
+  if okw:
+    for e in wrap:
+      for typ in ("float", "int"):
+        try:
+          if not all(holds(c, typ) == pol for c, pol, node in e.state.pc if "isinstance" in repr(c)):
+            okw = False
+        except ValueError:
+          okw = False
   ctx.record(R, f.where, "single float wrapped as one named value", okw, "[(name, value)] when the test returns a number" if okw else "plain float results are not wrapped")
 
 
